@@ -62,6 +62,14 @@ os.makedirs(RUN, exist_ok=True)
 ENV = dict(os.environ, ASAN_OPTIONS="detect_leaks=0:abort_on_error=0:allocator_may_return_null=1")
 
 
+def limits():
+    """resource caps for every child process: no core files, files at most 1 GiB, 40 min of CPU"""
+    import resource
+    resource.setrlimit(resource.RLIMIT_CORE, (0, 0))
+    resource.setrlimit(resource.RLIMIT_FSIZE, (1 << 30, 1 << 30))
+    resource.setrlimit(resource.RLIMIT_CPU, (2400, 2400))
+
+
 # ---------------------------------------------------------------------------------------------
 # running harness and driver
 # ---------------------------------------------------------------------------------------------
@@ -99,7 +107,7 @@ def run_harness(cases, tag, exe=None, timeout=900):
             f.write(c.emit())
     try:
         p = subprocess.run([exe or HARNESS, path], stdout=subprocess.PIPE, stderr=subprocess.PIPE, env=ENV,
-                           timeout=timeout)
+                           timeout=timeout, preexec_fn=limits)
         out, err, rc = p.stdout.decode("latin-1"), p.stderr.decode("latin-1"), p.returncode
     except subprocess.TimeoutExpired as e:
         out = (e.stdout or b"").decode("latin-1")
@@ -146,10 +154,12 @@ def run_driver(cmds, timeout=1800):
             inp.append("read " + c[1])
         elif c[0] == "readx":
             inp.append("readx %s %s" % (c[1], c[2]))
+        elif c[0] == "ctr":
+            inp.append("ctr " + c[1])
         else:
             inp.append(c[1])
     p = subprocess.run([DRV], input=("\n".join(inp) + "\n").encode(), stdout=subprocess.PIPE,
-                       stderr=subprocess.PIPE, timeout=timeout)
+                       stderr=subprocess.PIPE, timeout=timeout, preexec_fn=limits)
     out = p.stdout.decode("latin-1").split("\n")
     res, i = [], 0
 
@@ -168,7 +178,7 @@ def run_driver(cmds, timeout=1800):
             else:
                 lp, ns = nxt(), nxt()
                 res.append({"bytes": l[6:], "ldpad": [int(x) for x in lp.split()[1:]], "nstr": int(ns.split()[1])})
-        elif c[0] in ("read", "readx"):
+        elif c[0] in ("read", "readx", "ctr"):
             lines, e = [], None
             while True:
                 l = nxt()
@@ -320,6 +330,18 @@ def judge(case, hr, drw, drr, dalt):
             tie_breaks.append((case, "read", {"first_diff": first_diff(drr["lines"], hr["D2"])}))
         else:
             stats["model_read_ok"] += 1
+    if "D2_from_model_bytes" in hr:
+        stats["read_from_model_bytes"] = stats.get("read_from_model_bytes", 0) + 1
+        if hr["D2_from_model_bytes"] != hr["D2"]:
+            tie_breaks.append((case, "read-model-bytes", {"first_diff": first_diff(hr["D2_from_model_bytes"] or ["<error>"], hr["D2"])}))
+    # temp-name counters restored by the reader
+    mc = hr.get("model_ctr")
+    if mc is not None and "lines" in mc and "readerr" not in hr:
+        if mc["lines"] != hr["C2"]:
+            tie_breaks.append((case, "temp-counters", {"first_diff": first_diff(mc["lines"], hr["C2"])}))
+        else:
+            stats["counters_checked"] = stats.get("counters_checked", 0) + len(hr["C2"])
+            stats["counters_nonzero"] = stats.get("counters_nonzero", 0) + sum(1 for l in hr["C2"] if not l.endswith(" 0"))
     # label identity (pointer level) in the re-read module
     if "readerr" not in hr and hr["L2"]:
         bad_f = [l for l in hr["L2"] if l.startswith("func") and
@@ -410,8 +432,22 @@ def process(cases, tag, exe=None, timeout=600):
                 for fl in ("g", "c", "p", "e"):
                     cmds.append(("readx", fl, hr["RAW"]))
                 n += 4
+            else:
+                cmds.append(("ctr", hr["RAW"]))
+                n += 1
         idx[c.id] = (k, n)
     dres = run_driver(cmds) if cmds else []
+    # (f) model-written bytes -> real reduce_encode -> real MIR_read must give the same modules
+    rawc = []
+    for c in cases:
+        if c.id in idx and "bytes" in dres[idx[c.id][0]] and "RAW" in hres[c.id] and "readerr" not in hres[c.id]:
+            mb = dres[idx[c.id][0]]["bytes"]
+            if mb != hres[c.id]["RAW"] or (sum(map(ord, c.id)) % 5 == 0 and len(mb) < 400000):
+                rawc.append(Case(c.id + "~raw", ["hex " + mb], flags=["raw"], kind="raw"))
+    if rawc:
+        h3 = run_harness(rawc, tag + "_raw", exe, timeout=timeout)
+        for rc in rawc:
+            hres[rc.id[:-4]]["D2_from_model_bytes"] = h3[rc.id].get("D2") if "readerr" not in h3[rc.id] else None
     # the same cases once more in another process (address space layout differs): same bytes expected
     again = [c for c in cases if "rebuild" in c.flags and "RAW" in hres[c.id]]
     if again:
@@ -431,6 +467,8 @@ def process(cases, tag, exe=None, timeout=600):
                 drr = dres[k + 1]
             if n >= 6:
                 dalt = {"g": dres[k + 2], "c": dres[k + 3], "p": dres[k + 4], "e": dres[k + 5]}
+            elif n == 3:
+                hr["model_ctr"] = dres[k + 2]
         c.hr, c.drw = hr, drw
         out.append((c, judge(c, hr, drw, drr, dalt)))
     return out
@@ -624,7 +662,7 @@ def text_corpus(rng):
         dd = os.path.join(REPO, "c-tests", sub)
         if os.path.isdir(dd):
             files += [os.path.join(dd, f) for f in sorted(os.listdir(dd)) if f.endswith(".c")]
-    want = 400 if THOROUGH else 48
+    want = 400 if THOROUGH else 80
     must = [f for f in files if os.path.basename(f) in ("jcall.c", "propcond.c", "propcond2.c", "issue355.c", "setjmp.c",
                                                         "labels-as-values.c", "typedef.c")]
     pick = list(must)
@@ -639,7 +677,7 @@ def text_corpus(rng):
         o = os.path.join(outdir, "c%d.mir" % i)
         try:
             p = subprocess.run([c2m, "-S", os.path.basename(f), "-o", o], cwd=os.path.dirname(f),
-                               stdout=subprocess.PIPE, stderr=subprocess.PIPE, timeout=60)
+                               stdout=subprocess.DEVNULL, stderr=subprocess.DEVNULL, timeout=60, preexec_fn=limits)
         except subprocess.TimeoutExpired:
             return None
         if p.returncode != 0 or not os.path.exists(o) or os.path.getsize(o) == 0:
@@ -690,7 +728,8 @@ def token_tie():
             din.append(("raw", "tok %s %s" % (k, v)))
     path = os.path.join(RUN, "tok.txt")
     open(path, "w").write("\n".join(hin) + "\n")
-    p = subprocess.run([HARNESS, path], stdout=subprocess.PIPE, stderr=subprocess.PIPE, env=ENV)
+    p = subprocess.run([HARNESS, path], stdout=subprocess.PIPE, stderr=subprocess.PIPE, env=ENV, timeout=300,
+                       preexec_fn=limits)
     ho = p.stdout.decode().split("\n")
     do = run_driver(din)
     n_ok = 0
@@ -710,7 +749,8 @@ def token_tie():
              "00", "46", "7f", "80", "ff", "13" + "ff" * 16, "13" + "00" * 9 + "80" + "ff" * 6]
     rin = ["tokr " + t for t in toks + extra]
     open(path, "w").write("\n".join(rin) + "\n")
-    p = subprocess.run([HARNESS, path], stdout=subprocess.PIPE, stderr=subprocess.PIPE, env=ENV)
+    p = subprocess.run([HARNESS, path], stdout=subprocess.PIPE, stderr=subprocess.PIPE, env=ENV, timeout=300,
+                       preexec_fn=limits)
     ho = p.stdout.decode().split("\n")
     do = run_driver([("raw", "rtok " + t) for t in toks + extra])
     for i, t in enumerate(toks + extra):
@@ -863,7 +903,7 @@ try:
                     cases.append(c)
         stats["corpus_replayed"] = len(cases)
         cases += defect_probes() + unit_probes()
-        cases += gen_cases(900 if THOROUGH else 160, ck.rng)
+        cases += gen_cases(900 if THOROUGH else 320, ck.rng)
         cases += text_corpus(ck.rng)
         if THOROUGH:
             cases += big_cases(ck.rng)
@@ -911,7 +951,19 @@ ck.cov["distribution"] = {"kinds": stats["kinds"], "item_lines": stats["item_kin
                           "model_reader_agrees": stats["model_read_ok"], "token_checks": stats.get("token_checks", 0),
                           "ld_padding_nonzero_cases": stats["ld_pad_nonzero"],
                           "c2m_compiled": stats.get("c2m_compiled", 0), "c2m_tried": stats.get("c2m_tried", 0),
-                          "known_finding_hits": stats["known"], "source_cfg": CFG}
+                          "known_finding_hits": stats["known"], "source_cfg": CFG,
+                          "source_cfg_equals_Cfg_today": CFG == {"unportable": [181, 185, 186], "globalDoubleRead": True,
+                                                                 "lrefOrphan": True, "dataPtr": False, "codeLimit": 180,
+                                                                 "endfuncLabels": False},
+                          "temp_counters_compared": stats.get("counters_checked", 0),
+                          "temp_counters_nonzero": stats.get("counters_nonzero", 0),
+                          "label_operands_identity_checked": stats.get("label_ops_checked", 0),
+                          "read_from_model_bytes": stats.get("read_from_model_bytes", 0)}
+ck.cov["trusted_base"] = ck.cov.get("trusted_base", []) + [
+    "translate/c11_tables.py (textual extraction of enums, insn_descs and five reader facts; fails loudly)",
+    "translate/c11_cfun.py (clang-14 JSON AST -> BitVec definitions)", "harness/c11_harness.c (structural dump, builder)",
+    "lean/Drv/C11.lean (description parser/printer around the model)",
+    "bv_decide axioms of Lemmas/BridgeC11.lean (uint_length/int_length bridges only)"]
 ck.cov["corpus_replayed"] = stats.get("corpus_replayed", 0)
 ck.cov["exhaustive"] = False
 ck.assumptions += [
@@ -921,5 +973,9 @@ ck.assumptions += [
     "long double: the 6 padding bytes of a TAG_LD token are modelled as 0; the comparison masks them and counts cases "
     "where the real writer emitted something else",
     "execution equality is checked on generated executable modules only (interpreter), not on the c2m corpus",
+    "temp-name counters are modelled for names whose suffix after `.lc` / `t` is a string of decimal digits (strtoul also "
+    "accepts blanks and a sign)",
+    "label numbers of generated modules stay below 2^24 + 8: the reader allocates func_labels up to the largest label "
+    "number (8 bytes each), so numbers near 2^32 need 32 GiB (observed, not judged)",
 ]
 ck.finish()
